@@ -18,6 +18,84 @@ CLAIMED = {
         "are not asserted.",
         "4/C01",
     ),
+    "C02": (
+        "Hypothesis-generated extraction programs (1-4 steps of subregion in three forms / time_slice / "
+        "time_interval) against an explicit offset-tracking model; series assembly round-trips",
+        "After every step of a generated program the child image is compared with a model that tracks "
+        "the integer offset into the root array, the selected time indices and the root reference "
+        "coordinate system: exact data block, placement of every voxel corner, time/date bookkeeping, "
+        "equivalence of the three ROI forms, append/stack round-trips.",
+        "RefCS convention trusted; empty selections, negative indices and stepped slices are not generated.",
+        "4/C02",
+    ),
+    "C03": (
+        "Hypothesis-generated geometries / weights / data and integrate() call histories vs an einsum "
+        "reference, linearity and resolution metamorphic relations, fresh-object differential",
+        "Weighted-sum reference on dyadic payloads (exact), linearity, the same piecewise-constant field "
+        "supplied at coarser / finer resolutions, histories of up to five calls on one object compared "
+        "call by call with a fresh object, normalisation.",
+        "cv2 INTER_AREA trusted as conservative for pure down-sampling / integer up-sampling; mixed "
+        "up/down factors not generated.",
+        "4/C03",
+    ),
+    "C09": (
+        "Hypothesis-generated affine parameters, point sets and exact warps vs inverse round-trips, "
+        "orthonormality, documented action and an integer pull-back model",
+        "Forward/inverse composition, rotation algebra and typed I/O on generated parameters (2-D/3-D, "
+        "several non-zero angles); transformation-based corrections with exactly representable maps "
+        "(identity, whole-voxel shifts incl. beyond the image, quarter turns, resampling between systems) "
+        "compared voxel by voxel with an integer pull-back model in all three representations.",
+        "fitted maps are not held to exactness; voxel-typed quarter turns are a recorded known finding.",
+        "4/C09",
+    ),
+    "C10": (
+        "Hypothesis-generated (correction x input kind x overwrite) cases with snapshot, second-instance "
+        "differential, per-slice differential and neutral-element oracles",
+        "Every correction constructible without files or interaction is applied to arrays, scalar / optical "
+        "images and series with overwrite on and off: input snapshots, same kind, data equal to "
+        "correct_array of an identically built second instance, metadata = input + declared updates, "
+        "overwrite identity, series = per-slice, neutral parameters = identity, constructor chains.",
+        "cv2 rejections of unsupported dtypes count as rejected; k-means RNG is reseeded by the harness.",
+        "4/C10",
+    ),
+    "C11": (
+        "Hypothesis-generated resize / refinement / reduction / extrusion / superposition cases vs "
+        "integral conservation (metamorphic) and plain numpy references",
+        "Integral before vs after for conservative resizing, refinement, coarsening (general data only "
+        "on divisible extents, constant data everywhere), axis reduction by index and by Cartesian name, "
+        "extrusion and grid-aligned superposition; sum / mean / take references; refine-then-coarsen "
+        "identity.",
+        "float32/cv2 tolerance 1e-5 x sum|x| (measured worst 9e-7); non-conservative regimes not generated.",
+        "4/C11",
+    ),
+    "C18": (
+        "Hypothesis-generated images, encoded byte strings and correction configurations through "
+        "save/load, encode/decode and write/read round-trips",
+        "npz save/imread (twice), PNG/TIFF decoding, OpticalImage.write/imread and correction "
+        "save/read_correction round-trips over the metadata space, compared bit-for-bit (arrays, dtype) and "
+        "entry by entry (metadata), corrections by identical output on several inputs.",
+        "ImageMagick identify absent (dates of written optical images not compared); class identity after "
+        "npz load not demanded.",
+        "4/C18",
+    ),
+    "C19": (
+        "Hypothesis-generated (shape, patch count, overlap, dimensions, origin) cases vs a coverage-count "
+        "tiling model, sub-image differential and corner/centre consistency",
+        "Re-assembly identity, interiors tile the image exactly once (coverage count on a unique-id base), "
+        "each patch equals the sub-image at its advertised voxel corners, Cartesian and voxel corners / "
+        "centres agree under the base coordinate system.",
+        "centre placement for non-divisible extents is a recorded known finding.",
+        "4/C19",
+    ),
+    "C20": (
+        "exhaustive enumeration of the axis translation tables + Hypothesis-generated arrays / images for "
+        "layout helpers, slicing and reduction by name vs by index, with the coordinate system as arbiter",
+        "All (dimension, axis, direction, axis form) rows of the three tables are enumerated and compared "
+        "with each other and with unit steps of a real CoordinateSystem; name-vs-index addressing in "
+        "slice and reduce_axis and placement / inverse laws of the layout helpers on generated arrays.",
+        "cartesianToMatrixIndexing is documented 2-D only: inverse law asserted in 2-D.",
+        "4/C20",
+    ),
     "C04": (
         "Hypothesis-generated solver runs (grid x masses x method x discretisation x back-end x "
         "Anderson x weights) with invariants on the captured solution, plus injected one-shot "
@@ -90,6 +168,38 @@ CLAIMED = {
         "indices) is compared with an independent enumeration; image-derived grids via Hypothesis.",
         "RefGrid is trusted; the 1-D interior labelling is only required to be a partition.",
         "4/C07",
+    ),
+    "C12": (
+        "Hypothesis-generated well-conditioned swatch sets and ground-truth colour maps vs exact-map "
+        "recovery, monotone residual, and staged-equals-sequential composition",
+        "Each balance class is fitted on destinations that are an exact map of its class and must reproduce "
+        "them to optimiser tolerance (a miss only counts if an independent Powell run on the same problem "
+        "does reach it); fitting never increases the residual from its start state; after every stage of an "
+        "adaptive balance the accumulated map equals the stage maps applied one after the other.",
+        "scipy Powell at tol 1e-6 on problems with cond <= 20; stalled optimiser runs are skipped, not failed.",
+        "4/C12",
+    ),
+    "C13": (
+        "Hypothesis-generated baselines / probes / configurations with recording spy stages vs a reference "
+        "composition computed by the harness",
+        "Stages are instrumented non-commuting maps that record call order and a hash of their input; the "
+        "result must equal the harness's own composition on the independently computed difference, for all "
+        "diff options, both stage orders, 0-3 extra baselines and integer / float dtypes; the baseline maps "
+        "to zero; probe untouched; result metadata.",
+        "cleaning filter = element-wise maximum of the reduced extra-baseline differences (design-time "
+        "validated); float32 reduction path compared at 1e-6.",
+        "4/C13",
+    ),
+    "C14": (
+        "Hypothesis-generated signals, parameters, label maps and kernels vs the defining algebra of each "
+        "model (idempotence, affinity, composition, label-wise differential, interpolation, span test)",
+        "Clip bounds/idempotence, affinity of scaling/linear models, CombinedModel = sequential composition "
+        "and in-order routing of flat parameter vectors, heterogeneous = homogeneous per label (also after "
+        "updates and shape changes), exact strict thresholds, kernel interpolation reproduces its values and "
+        "its numba evaluation equals the plain kernel sum, polynomial space spans exactly total degree <= d.",
+        "float32 kernel paths compared with a derived backward-error bound; multi-entry CombinedModel dofs "
+        "are undocumented and not asserted.",
+        "4/C14",
     ),
     "C15": (
         "exhaustive generated enumeration of all quadrature rules vs analytic monomial integrals "
